@@ -5,7 +5,7 @@ import subprocess
 import z3
 
 from vf import driver, cfront
-from contracts.py import constexpr, preproc, parsedecl
+from contracts.py import constexpr, preproc, parsedecl, parsetype
 from contracts.c import typestr
 
 PID = 'C30'
@@ -24,6 +24,14 @@ for d in decls:
         pass
     except Exception as e:
         bad.append("cdef(%%r) raised %%s: %%s" %% (d, e.__class__.__name__, str(e).split("\n")[0]))
+# in-line typeof() on texts for which pycparser returns unusual shapes
+for t in ['', ' ', '...', 'int(*)(int, ..., int)', '#define X 5\nint', 'int(*)(...)', 'foo_t', 'int[...]']:
+    try:
+        cffi.FFI().typeof(t)
+    except ALLOWED:
+        pass
+    except Exception as e:
+        bad.append("typeof(%%r) raised %%s: %%s" %% (t, e.__class__.__name__, str(e).split("\n")[0]))
 # compiled FFIs: typeof() on strings that cannot be encoded, are empty, hold NULs ... (a crash is a FAIL: child process)
 import subprocess
 child = r"""
@@ -98,7 +106,7 @@ def macros_bounded(rep, tu):
 def main(tier, seed):
     return driver.run_property(
         PID, tier, seed, c_part=(typestr.R, typestr.C30_C_FUNCS), layout_types=('PyObject', 'PyTypeObject', 'CDataObject', 'FFIObject'),
-        py_items=constexpr.c30_items() + preproc.items() + parsedecl.items(), concretise=concretise, extra=macros_bounded,
+        py_items=constexpr.c30_items() + preproc.items() + parsedecl.items() + parsetype.items(), concretise=concretise, extra=macros_bounded,
         trusted=["scope of the proved part: the constant-expression evaluator Parser._parse_constant/_c_div (every "
                  "AST node class and operator): no built-in operation in it can raise anything but cffi's error "
                  "classes; recursive calls through the function's own contract",
@@ -106,6 +114,10 @@ def main(tier, seed):
                  "decl.init = None and an instance of every node class of the installed pycparser (attribute sets from "
                  "its __slots__; reading any other attribute is AttributeError), and for a UnaryOp every operator "
                  "spelling x every node class as operand; the literal regex test is an arbitrary boolean",
+                 "Parser.parse_type_and_quals (in-line typeof) on the shapes pycparser returns for `void __dummy(<text>);` -- "
+                 "args None for an empty text, a Typename, an unknown ID; with and without '#define's -- and the refusal "
+                 "of a bare '...' in _get_type_and_quals for a node with and without source coordinates: these shapes are "
+                 "ASSUMED of pycparser (observed on the installed version, each replayed by the text that produces it)",
                  "compiled FFIs: _ffi_type (ffi_obj.c), the entry of ffi.typeof(string) & co.: a ctype or NULL with an exception "
                  "for ANY argument, and the type-string parser is handed a C string (call-site obligation); parse_c_type, "
                  "realize_c_type_or_func, _ffi_bad_type, unwrap_fn_as_fnptr are assumed contracts here",
